@@ -1,6 +1,8 @@
 """C18 - LCD animations never block, stay inside their row, finish unless looping, are rate-limited.
 
-Host half : the real Reduino.Displays.LCD object (animate + tick(now)) against coq/Host/LCDAnim.v.
+Host half : the real Reduino.Displays.LCD object (animate + tick(now)) against coq/Host/LCDAnim.v, and whole call histories
+(animate / tick / line / clear / begin in any order: animations registered, finished, re-registered with the same style and
+row) against the registry state machine coq/Host/LCDReg.v, with an oracle that follows every started animation by identity.
 Device half: generated scripts with lcd.animate(...) before `while True:`, inside it and inside functions, transpiled by the real
 parse+emit, compiled against the mock core and run with a scripted millis() per pass, against
 coq/Device/DLCDAnim.v.  Independently of the models a property oracle is evaluated on every real
@@ -23,7 +25,7 @@ from harness import fw
 META = {
     "id": "C18",
     "technique": "Coq proof (induction over tick histories; per-style variants and invariants; finite obligations over tables regenerated from the source) + extracted-model correspondence with the real LCD object and with the emitted C++ animation helpers run under the mock core + trace oracle",
-    "level_text": "Theorems C18_* (coq/Props/C18.v) are proved for all texts, widths >= 1, speeds, loop flags and all tick-time sequences about Gallina transcriptions of LCD.animate/LCD.tick and of the four __redu_lcd_start_*/__redu_lcd_tick_* template pairs plus the tick-injection rule - the device rate limiter also in the W-bit unsigned arithmetic of the emitted C++ for every width W (C18_width_model_agrees_device, C18_rate_limit_device_width: every clock value below 2^W; C18_rollover_trace_device_partial: across the roll-over) -, and (C18_tables_complete) about the style/helper tables and helper texts re-read from emitter.py, parser.py and LCD.py on every run; the models are run side by side with the real host object (buffer assignments and every _AnimationState field after each tick) and with the compiled firmware (cell writes and DDRAM dump per loop() pass).",
+    "level_text": "Theorems C18_* (coq/Props/C18.v) are proved for all texts, widths >= 1, speeds, loop flags and all tick-time sequences about Gallina transcriptions of LCD.animate/LCD.tick (and, C18_host_registry_* / C18_host_registered_entry_run, by induction over whole call histories animate/tick/line/clear/begin of the host class with its count-keyed registry dict: no animate call ever replaces a registered animation, every registered animation is advanced by every tick under its own key until begin()) and of the four __redu_lcd_start_*/__redu_lcd_tick_* template pairs plus the tick-injection rule - the device rate limiter also in the W-bit unsigned arithmetic of the emitted C++ for every width W (C18_width_model_agrees_device, C18_rate_limit_device_width: every clock value below 2^W; C18_rollover_trace_device_partial: across the roll-over) -, and (C18_tables_complete) about the style/helper tables and helper texts re-read from emitter.py, parser.py and LCD.py on every run; the models are run side by side with the real host object (buffer assignments and every _AnimationState field after each tick) and with the compiled firmware (cell writes and DDRAM dump per loop() pass).",
     "level_note": "Trusted: Coq kernel, extraction, OCaml driver, the mock LiquidCrystal/LiquidCrystal_I2C (cursor-addressed DDRAM) and its virtual millis(), g++. The theorems are about the models; the correspondence bounds their distance from LCD.py / emitter.py. Tick injection is proved without a guard on the place of the call site (C18_tick_injected, C18_loop_site_ticked, C18_function_site_ticked): before the main loop, inside `while True:` and inside function bodies, at any depth inside if/elif/else, while, for and try/except bodies (Device/DLCDInject.v: the parser's name collection and the emitter's registration pass as two recursive walks over statement trees, C18_nested_*); the two former refutations (animate inside `while True:` never ticked; animate inside a def undeclared) were repaired in Reduino and are kept as kind=fixed entries whose witnesses are replayed first on every run (a witness that fails again is a VIOLATION).",
     "design_ref": "DESIGN.md section 4 C18 (and C05 for tick injection)",
 }
@@ -529,6 +531,407 @@ def run_host(ctx, stats):
         stats["host_tags"][c["tag"]] = stats["host_tags"].get(c["tag"], 0) + 1
         if r["new"] == "ok" and r["ticks"] and any(t["events"] for t in r["ticks"]):
             nontrivial.add(repr((c["cols"], c["rows"], c["anims"], c["nows"][:6])))
+    return cases, len(nontrivial)
+
+
+# --------------------------------------------------------------------------------------------
+# host registry over whole call histories (Host/LCDReg.v)
+# --------------------------------------------------------------------------------------------
+
+def hist_model_case(c):
+    ops = []
+    for op in ([] if c.get("oracle_only") else c["hist"]):
+        if op[0] == "animate":
+            ops.append([0, CODE.get(str(op[1]).lower(), 9), int(op[2]), op[3], int(op[4]), bool(op[5])])
+        elif op[0] == "tick":
+            ops.append([1, int(op[1])])
+        elif op[0] == "line":
+            ops.append([2, int(op[1]), op[2]])
+        elif op[0] == "clear":
+            ops.append([3])
+        else:
+            ops.append([4])
+    return [7, c["cols"], c["rows"], ops]
+
+
+def hist_cut(c, k):
+    """the history cut after call number k (prefix-determined)"""
+    c2 = dict(c)
+    c2["hist"] = [list(o) for o in c["hist"][:k + 1]]
+    c2["cut_from"] = len(c["hist"])
+    return c2
+
+
+def hist_compare(ctx, c, m, r):
+    """correspondence of the registry model with the real object, call by call: verdict, buffer assignments, buffer, the
+    registry's key strings in dict order and every field of every registered state"""
+    if m == [2]:
+        ctx.disagree("host history: model could not decode the case (harness bug)", c, m, None)
+        return
+    if m[0] == 1:
+        if r["new"] == "ok":
+            ctx.disagree("host history LCD(): model raises, implementation constructs", c, m, r["new"])
+        return
+    if r["new"] != "ok":
+        ctx.disagree("host history LCD(): implementation raises, model constructs", c, m[0], r["new"])
+        return
+    for k, (mo, ro) in enumerate(zip(m[1], r["hist"])):
+        op = c["hist"][k]
+        what = f"host history, call #{k} {op[0]}"
+        if (mo[0] == 1) != (ro["status"] != "ok"):
+            ctx.disagree(f"{what}: raised?", hist_cut(c, k), mo[:1], ro["status"])
+            return
+        if op[0] in ("animate", "tick", "line") and dec_hevents(mo[1]) != ro["events"]:
+            ctx.disagree(f"{what}: buffer assignments", hist_cut(c, k), dec_hevents(mo[1]), ro["events"])
+            return
+        mbuf = [C.wstr(x) for x in mo[2]]
+        if mbuf != ro["snap"]["buffer"]:
+            ctx.disagree(f"{what}: buffer", hist_cut(c, k), mbuf, ro["snap"]["buffer"])
+            return
+        mkeys = [f"{STYLES[e[0][0]]}:{e[0][1]}:{e[0][2]}" for e in mo[3]]
+        if mkeys != ro["snap"]["keys"]:
+            ctx.disagree(f"{what}: registry keys (dict order)", hist_cut(c, k), mkeys, ro["snap"]["keys"])
+            return
+        mstates = [dec_hstate(e[1]) for e in mo[3]]
+        istates = [norm_istate(x) for x in ro["snap"]["states"]]
+        if mstates != istates:
+            ctx.disagree(f"{what}: registered _AnimationState fields", hist_cut(c, k), mstates, istates)
+            return
+
+
+def hist_in_guard(c):
+    ts = [op[1] for op in c["hist"] if op[0] == "tick"]
+    return c["cols"] >= 1 and c["rows"] >= 1 and all(t > 0 for t in ts) and all(a <= b for a, b in zip(ts, ts[1:]))
+
+
+def hist_oracle(ctx, c, r, stats):
+    """the property's relations over a whole call history of the real object.  Every animation a successful, valid animate
+    call started is followed by identity of its state object: as long as it is live (active, not reset by begin()) it must
+    stay registered across every call (registering another animation never replaces it), every due tick must advance it,
+    a looping one never becomes inactive, steps are speed_ms apart, a non-looping one stops within len+2*cols+2 steps,
+    tick never raises / sleeps / leaves the rows of the animations, the buffer keeps its shape."""
+    cols, rows = c["cols"], c["rows"]
+    if r["new"] != "ok":
+        ctx.fail("LCD() raised for a positive geometry", c, "object", r["new"], key="host-new")
+        return
+    info = []          # per tracked animation: the arguments it was started with, its observed step times, alive?
+    prev_tracked = []
+    ever_rows = set()
+    for k, (op, ro) in enumerate(zip(c["hist"], r["hist"])):
+        cur = ro["tracked"]
+        buf = ro["snap"]["buffer"]
+        if len(buf) != rows or any(len(x) != cols for x in buf):
+            ctx.fail(f"buffer shape changed by call #{k} {op[0]}", hist_cut(c, k), [rows, cols], buf, key="host-buffer-shape")
+            return
+        if op[0] == "animate":
+            valid = str(op[1]).lower() in CODE and 0 <= int(op[2]) < rows
+            if not valid:
+                if ro["status"] == "ok":
+                    # what animate does with an unknown style / a row outside the display is not the statement's subject
+                    # (the correspondence compares the ValueError); an accepted one leaves the relations without referent
+                    stats["hist_foreign_accepted"] = stats.get("hist_foreign_accepted", 0) + 1
+                    return
+            else:
+                if ro["status"] != "ok":
+                    ctx.fail("animate raised for a valid style and row", hist_cut(c, k), "ok", ro["status"], key="host-animate-raised")
+                    return
+                if ro["sleeps"]:
+                    ctx.fail("animate called a sleep function (must not block)", hist_cut(c, k), 0, ro["sleeps"], key="host-animate-sleeps")
+                    return
+                for ev in ro["events"]:
+                    if ev[0] != int(op[2]) or len(ev[1]) != cols:
+                        ctx.fail("animate wrote outside its row / not exactly the display width", hist_cut(c, k), [int(op[2]), cols], ev, key="host-animate-geometry")
+                        return
+                if not isinstance(ro["started"], int):
+                    ctx.fail("animate returned normally but the display's registry holds no new animation for it (LCD.tick will never advance it)",
+                             hist_cut(c, k), "one new registered animation", {"started": ro["started"], "keys": ro["snap"]["keys"]}, key="host-registry-not-registered")
+                    return
+                info.append({"style": str(op[1]).lower(), "row": int(op[2]), "text": op[3], "speed": max(0, int(op[4])), "loop": bool(op[5]),
+                             "steps": [], "alive": True, "call": k})
+                ever_rows.add(int(op[2]))
+        elif op[0] == "tick":
+            if ro["status"] != "ok":
+                ctx.fail("LCD.tick raised", hist_cut(c, k), "no exception", ro["status"], key="host-tick-raised")
+                return
+            if ro["sleeps"]:
+                ctx.fail("LCD.tick called a sleep function (must not block)", hist_cut(c, k), 0, ro["sleeps"], key="host-tick-sleeps")
+                return
+            for ev in ro["events"]:
+                if ev[0] not in ever_rows or len(ev[1]) != cols:
+                    ctx.fail("tick wrote outside the animations' rows / not exactly the display width", hist_cut(c, k), [sorted(ever_rows), cols], ev, key="host-geometry")
+                    return
+        if op[0] == "begin":
+            for a in info:
+                a["alive"] = False          # begin() resets the display: what becomes of running animations is not C18's subject
+            ever_rows.clear()
+        # (1) across any call but begin(): a live animation stays registered
+        for j, a in enumerate(info):
+            if not a["alive"] or j >= len(prev_tracked):
+                continue
+            was_active = prev_tracked[j][1][7]
+            if not cur[j][0]:
+                if was_active:
+                    desc = f"{a['style']} on row {a['row']} (loop={a['loop']}, started by call #{a['call']})"
+                    ctx.fail(f"call #{k} {op[0]}{tuple(op[1:]) if op[0] == 'animate' else ''} removed / replaced the live animation {desc} in the display's registry: "
+                             "it is still marked active but LCD.tick no longer advances it",
+                             hist_cut(c, k), "every live animation still registered", {"registered_keys": ro["snap"]["keys"], "lost": cur[j][1], "who": ro["snap"]["who"]},
+                             key="host-registry-replaced")
+                    return
+                a["alive"] = False           # a finished animation may be forgotten
+            if a["alive"] and a["loop"] and not cur[j][1][7]:
+                ctx.fail(f"a looping animation became inactive (across call #{k} {op[0]})", hist_cut(c, k), "active", cur[j][1], key="host-loop-ended")
+                return
+        # (2) per-animation relations at a tick
+        if op[0] == "tick":
+            now = op[1]
+            for j, a in enumerate(info):
+                if not a["alive"] or j >= len(prev_tracked):
+                    continue
+                sp, sc = prev_tracked[j][1], cur[j][1]
+                stepped = sp != sc
+                own_row_events = [ev for ev in ro["events"] if ev[0] == a["row"]]
+                was_active = sp[7]
+                if stepped and not was_active:
+                    ctx.fail("an inactive animation changed", hist_cut(c, k), sp, sc, key="host-inactive-step")
+                    return
+                if a["loop"] and not sc[7]:
+                    ctx.fail("a looping animation became inactive", hist_cut(c, k), "active", sc, key="host-loop-ended")
+                    return
+                if stepped:
+                    for t1 in a["steps"]:
+                        if 0 < t1 and now - t1 < a["speed"]:
+                            ctx.fail(f"two steps closer than speed_ms (animation #{j} of the history)", hist_cut(c, k), f"consecutive steps >= {a['speed']} ms apart",
+                                     {"steps_at": [t1, now], "all_steps": a["steps"] + [now]}, key="host-rate-limit")
+                            return
+                    a["steps"].append(now)
+                    if not a["loop"] and len(a["steps"]) > bound(len(a["text"]), cols):
+                        ctx.fail("non-looping animation still stepping after len+2*cols+2 steps", hist_cut(c, k), bound(len(a["text"]), cols), len(a["steps"]), key="host-termination")
+                        return
+                else:
+                    last = a["steps"][-1] if a["steps"] else 0
+                    due = was_active and (a["speed"] <= 0 or last <= 0 or now - last >= a["speed"])
+                    if due and not own_row_events:
+                        ctx.fail(f"a due tick (not early) did not advance a live animation (animation #{j} of the history: {a['style']} on row {a['row']}, loop={a['loop']})",
+                                 hist_cut(c, k), "step", {"state": sp, "now": now, "registered_keys": ro["snap"]["keys"]}, key="host-due-skipped")
+                        return
+            stats["hist_ticks"] = stats.get("hist_ticks", 0) + 1
+        else:
+            # no other call advances or alters a running animation
+            for j, a in enumerate(info):
+                if a["alive"] and j < len(prev_tracked) and prev_tracked[j][1] != cur[j][1] and op[0] not in ("animate", "begin"):
+                    ctx.fail(f"call #{k} {op[0]} changed the state of a running animation", hist_cut(c, k), prev_tracked[j][1], cur[j][1], key="host-foreign-step")
+                    return
+        prev_tracked = cur
+    stats["hist_steps"] = stats.get("hist_steps", 0) + sum(len(a["steps"]) for a in info)
+    for j, a in enumerate(info):
+        still = j < len(prev_tracked) and prev_tracked[j][1][7]
+        tally(stats, "hist_animation_fate", ("looping" if a["loop"] else "one-shot") + (", running at the end" if still else ", over at the end") + ("" if a["alive"] else " (reset by begin / forgotten)"))
+
+
+def hist_shape(c, r):
+    """classification of a history for the measured distribution"""
+    ops = c["hist"]
+    n_anim = sum(1 for o in ops if o[0] == "animate")
+    # finished-then-reregistered: an animate call made while an earlier tracked animation is already inactive
+    fin_then_reg = False
+    same_key_pair = False
+    live_pairs = set()
+    for k, (op, ro) in enumerate(zip(ops, r.get("hist", []))):
+        if op[0] == "animate" and k > 0 and isinstance(ro.get("started"), int):
+            prev = r["hist"][k - 1]["tracked"]
+            if any(reg and not f[7] for reg, f in prev):
+                fin_then_reg = True
+            for reg, f in prev:
+                if reg and f[7] and f[0] == str(op[1]).lower() and f[1] == int(op[2]):
+                    same_key_pair = True
+    return n_anim, fin_then_reg, same_key_pair
+
+
+def gen_hist_cases(ctx):
+    rng = ctx.rng
+    thorough = ctx.tier == "thorough"
+    cases = []
+
+    def ticks(t0, n, gap):
+        return [["tick", t0 + gap * (i + 1)] for i in range(n)], t0 + gap * n
+
+    # (B) exhaustive short prefixes over a boundary alphabet on a 2x2 display, each followed by a tail of ticks:
+    #   a = one-shot blink row 0 (over after 1 step)   b = looping scroll row 0   c = one-shot scroll row 0 (3 steps)
+    #   d = looping blink row 1    t = tick
+    alpha = {"a": ["animate", "blink", 0, "B", 0, False], "b": ["animate", "scroll", 0, "ab", 0, True],
+             "c": ["animate", "scroll", 0, "!", 0, False], "d": ["animate", "blink", 1, "Z", 0, True], "t": None}
+    def all_words(letters, maxlen):
+        out, frontier = [], [""]
+        for _ in range(maxlen):
+            frontier = [w + x for w in frontier for x in letters]
+            out += frontier
+        return out
+    words = all_words("abct", 5) if not thorough else sorted(set(all_words("abct", 6) + all_words("abcdt", 5)))
+    if not thorough:
+        # quick: every word up to 4 calls, and the 5-call words in which the quick one-shot `a` is over (a tick after it) before
+        # a later animate call - the finished-then-registered shapes
+        words = [w for w in words if len(w) <= 4 or re.search(r"a.*t.*[abc]", w)]
+    for w in words:
+        if w.count("t") == len(w) or len(w) < 3 or w.endswith("t"):
+            continue                       # at least one animate, ends with an animate (the tail follows)
+        hist, t = [], 0
+        for ch in w:
+            if ch == "t":
+                t += 1
+                hist.append(["tick", t])
+            else:
+                hist.append(list(alpha[ch]))
+        for _ in range(7):
+            t += 1
+            hist.append(["tick", t])
+        cases.append({"cols": 2, "rows": 2, "i2c": False, "hist": hist, "tag": "hist:exhaustive"})
+    # (A) finished-then-reregistered, structured: a one-shot animation (style s1 on the looping one's row or on the other
+    # row), a looping one (s2), ticks until the one-shot is over, then a third animate call whose (style, row) is that of the
+    # looping one / of the finished one / of neither, looping or not, then ticks until a one-shot third has finished and
+    # the looping one must still be running for a full period; speeds 0 and 3 (ticks 3 apart, some early ones in between)
+    j = 0
+    for cols in ([3, 8] if thorough else [3]):
+        for s1 in STYLES:
+            for r1 in (0, 1):
+                for s2 in STYLES:
+                    for third in ("same-as-looping", "same-as-finished", "other-style", "other-row"):
+                        for loop3 in (False, True):
+                            j += 1
+                            if not thorough and third != "same-as-looping" and rng.random() < 0.5:
+                                continue
+                            speed = [0, 3][rng.randrange(2)]
+                            gap = 3
+                            t1, t2 = mk_text(1 + j % 2, salt=j), mk_text([2, cols + 1, 1][j % 3], salt=j + 3)
+                            hist = [["animate", s1, r1, t1, speed, False], ["animate", s2, 0, t2, speed, True]]
+                            tk, t = ticks(0, bound(len(t1), cols) + 1, gap)
+                            hist += tk
+                            if third == "same-as-looping":
+                                s3, r3 = s2, 0
+                            elif third == "same-as-finished":
+                                s3, r3 = s1, r1
+                            elif third == "other-style":
+                                s3, r3 = STYLES[(CODE[s2] + 1) % 4], 0
+                            else:
+                                s3, r3 = s2, 1
+                            t3 = mk_text(1, salt=j + 9)
+                            hist.append(["animate", s3, r3, t3, speed, loop3])
+                            tk, t = ticks(t, bound(len(t3), cols) + len(t2) + cols + 4, gap)
+                            if j % 3 == 0:
+                                tk.insert(2, ["tick", tk[1][1] + 1])        # an early tick (1 ms after a step)
+                            hist += tk
+                            cases.append({"cols": cols, "rows": 2, "i2c": j % 2 == 0, "hist": hist, "tag": f"hist:finished-then-{third}"})
+    # (C) seeded random histories: 4..45 calls, few distinct (style, row) pairs so that they recur, texts short enough for
+    # one-shots to finish inside the history, line / clear in between, begin() and invalid animate calls now and then
+    for j in range(400 if thorough else 120):
+        cols = rng.choice([1, 2, 3, 5, 8, 16])
+        rows = rng.choice([1, 2, 2, 4])
+        unit = rng.choice([1, 3, 100])
+        pairs = [(rng.choice(STYLES), rng.randrange(rows)) for _ in range(rng.randint(1, 3))]
+        t = rng.choice([0, 0, 6, 999, (1 << 32) - 5])
+        hist = []
+        for _ in range(rng.randint(4, 45)):
+            x = rng.random()
+            if x < 0.22:
+                st, rw = rng.choice(pairs) if rng.random() < 0.8 else (rng.choice(STYLES), rng.randrange(rows))
+                if rng.random() < 0.06:
+                    st = rng.choice(["SCROLL", "Blink", "wave", ""])
+                if rng.random() < 0.06:
+                    rw = rng.choice([-1, rows, rows + 2])
+                hist.append(["animate", st, rw, mk_text(rng.choice([0, 1, 1, 2, cols, cols + 1]), salt=j + len(hist)),
+                             rng.choice([0, 0, unit, unit, -2, 1]), rng.random() < 0.4])
+            elif x < 0.90:
+                t += rng.choice([0, 1, 1, unit, unit, unit + 1, 2 * unit, max(0, unit - 1), 5 * unit + 3])
+                hist.append(["tick", max(t, 1)])
+                t = max(t, 1)
+            elif x < 0.94:
+                hist.append(["line", rng.randrange(rows) if rng.random() < 0.9 else rows, rng.choice(["xy", "", "W" * (cols + 2)])])
+            elif x < 0.97:
+                hist.append(["clear"])
+            elif x < 0.985:
+                hist.append(["begin"])
+            else:
+                hist.append(["animate", "wave", 0, "x", 0, True])
+        cases.append({"cols": cols, "rows": rows, "i2c": j % 3 == 0, "hist": hist, "tag": "hist:random"})
+        if j % 3 == 1:
+            # the same history with the class's other public calls in between (outside the registry model's vocabulary: oracle
+            # only) - none of them may unregister, stop or advance a running animation
+            others = [["write", 1, rng.randrange(rows), "Q"], ["message", "top", "bottom"], ["progress", rng.randrange(rows), 3, 10],
+                      ["display", False], ["display", True], ["backlight", False], ["brightness", 7], ["glyph", 1, [0, 1, 2, 3, 4, 5, 6, 7]],
+                      ["clear"], ["line", 0, "hello"]]
+            h2 = []
+            for op in hist:
+                h2.append(op)
+                if rng.random() < 0.25:
+                    h2.append(list(rng.choice(others)))
+            cases.append({"cols": cols, "rows": rows, "i2c": j % 2 == 0, "hist": h2, "tag": "hist:random+other-calls", "oracle_only": True})
+    return cases
+
+
+def hist_shrink(case, key, rounds=60):
+    """greedy one-call-at-a-time minimisation of a failing history: drop a call as long as the oracle still reports the same
+    class of failure on the real object (runs only after a failure was found; the reported case is the smallest reached)"""
+    best = None
+    cur = {k: v for k, v in case.items() if k != "cut_from"}
+    for _ in range(rounds):
+        n = len(cur["hist"])
+        cands = []
+        for i in range(n):
+            c2 = dict(cur)
+            c2["hist"] = cur["hist"][:i] + cur["hist"][i + 1:]
+            cands.append(c2)
+        cands = [c2 for c2 in cands if c2["hist"] and hist_in_guard(c2)]
+        if not cands:
+            break
+        rs = C.run_impl("c18_impl.py", {"cases": cands}, timeout=600)
+        hit = None
+        for c2, r2 in zip(cands, rs):
+            col = _Collector()
+            hist_oracle(col, c2, r2, {})
+            if col.fails and col.fails[0]["key"] == key:
+                hit = col.fails[0]
+                break
+        if hit is None:
+            break
+        best = hit
+        cur = {k: v for k, v in hit["case"].items() if k != "cut_from"}
+    return best
+
+
+def run_hist(ctx, stats):
+    cases = gen_hist_cases(ctx)
+    impl = C.run_impl("c18_impl.py", {"cases": cases}, timeout=1200)
+    model = ctx.model([hist_model_case(c) for c in cases]) if ctx.exe else [None] * len(cases)
+    nontrivial = set()
+    shrunk_keys = set()
+    for c, r, m in zip(cases, impl, model):
+        if m is not None and not c.get("oracle_only"):
+            hist_compare(ctx, c, m, r)
+        if hist_in_guard(c):
+            col = _Collector()
+            hist_oracle(col, c, r, stats)
+            for f in col.fails:
+                if f["key"] not in shrunk_keys:
+                    shrunk_keys.add(f["key"])
+                    small = hist_shrink(f["case"], f["key"])
+                    if small is not None:
+                        small["case"]["shrunk_from_calls"] = len(f["case"]["hist"])
+                        f = small
+                ctx.fail(f["what"], f["case"], f["expected"], f["observed"], key=f["key"])
+        else:
+            stats["hist_outside_guard"] = stats.get("hist_outside_guard", 0) + 1
+        n_anim, fin, same = hist_shape(c, r)
+        stats.setdefault("hist_tags", {})
+        stats["hist_tags"][c["tag"]] = stats["hist_tags"].get(c["tag"], 0) + 1
+        tally(stats, "hist_calls_per_history", min(len(c["hist"]) // 10 * 10, 60))
+        tally(stats, "hist_animate_calls_per_history", min(n_anim, 8))
+        tally(stats, "hist_finished_then_registered", fin)
+        tally(stats, "hist_registered_next_to_live_same_style_and_row", same)
+        for op, ro in zip(c["hist"], r.get("hist", [])):
+            tally(stats, "hist_op", op[0])
+            if op[0] == "animate":
+                tally(stats, "hist_animate_result", ro["status"])
+        if fin and any(ro["events"] for op, ro in zip(c["hist"], r.get("hist", [])) if op[0] == "tick"):
+            nontrivial.add(repr(c["hist"][:8]) + repr((c["cols"], c["rows"], len(c["hist"]))))
     return cases, len(nontrivial)
 
 
@@ -1673,7 +2076,7 @@ class _Collector:
         self.notes = []
 
     def fail(self, what, case, expected, observed, key=None):
-        self.fails.append({"what": what, "expected": expected, "observed": observed, "key": key})
+        self.fails.append({"what": what, "expected": expected, "observed": observed, "key": key, "case": case})
 
     def disagree(self, *a, **k):
         pass
@@ -1713,6 +2116,15 @@ def replay(data):
                 break
         _, setup, passes = effective_phases(d, nows, setup, passes)
         device_oracle(col, case, setup, passes, 0, {})
+    elif isinstance(case, dict) and "hist" in case:
+        r = C.run_impl("c18_impl.py", {"cases": [case]}, timeout=600)[0]
+        print("replay: call history on LCD(cols=%d, rows=%d)" % (case["cols"], case["rows"]))
+        for k, op in enumerate(case["hist"]):
+            print(f"  #{k} lcd.{op[0]}({', '.join(repr(x) for x in op[1:])})")
+        if hist_in_guard(case):
+            hist_oracle(col, case, r, {})
+        else:
+            print("replay: the case lies outside the oracle's guard (positive non-decreasing tick times, positive geometry)")
     elif isinstance(case, dict) and "anims" in case and "nows" in case:
         r = C.run_impl("c18_impl.py", {"cases": [case]}, timeout=600)[0]
         if host_in_guard(case):
@@ -1759,11 +2171,12 @@ def run(ctx: C.Ctx):
     run_injection(ctx, stats)
     run_injection_trees(ctx, stats)
     hcases, h_nt = run_host(ctx, stats)
+    rcases, r_nt = run_hist(ctx, stats)
     dindex, d_nt = run_device(ctx, stats)
     run_schedule_spec(ctx, stats, hcases, dindex)
     ctx.coverage.update({
-        "evaluations": len(hcases) + len(dindex) + stats.get("injection_shapes", 0) + stats.get("tree_shapes", 0),
-        "distinct_nontrivial": h_nt + d_nt,
+        "evaluations": len(hcases) + len(rcases) + len(dindex) + stats.get("injection_shapes", 0) + stats.get("tree_shapes", 0),
+        "distinct_nontrivial": h_nt + r_nt + d_nt,
         "rule": "host: (4 styles x cols in {1,2,3,8,16,20,40} x len in {0,1,cols-1,cols,cols+1,2cols} x loop x speed in {0,1,100} x tick schedule in {ontime,early,late,equal,burst}) "
                 "(quick: two speed/schedule picks per cell rotating over all 15 pairs, thorough: all, plus every other width 1..40 with two picks per cell), plus seeded random single-animation cases "
                 "(speeds -5..70000, mixed and burst schedules) and multi-animation cases with invalid styles/rows; "
@@ -1787,10 +2200,18 @@ def run(ctx: C.Ctx):
                 "the path placed before the main loop, inside it, or inside a function body (rotating; functions are called from setup, from the main loop, or never), trees with call sites before and inside the main loop, trees with one to three function bodies, and scripts without a main loop - all of them inside the guard (oracle on the emitted text + correspondence); handler headers rotate over `except:`, `except ValueError:`, `except Exception as e:`, `except Exception:`. "
                 "Host, several displays: one in nine grid cases and half of the multi cases run next to a second display created in the same process (same geometry/style/row/registry key in the grid), whose animations start before and after the main one's and which is ticked between the main ticks; "
                 "any change of one display across an operation on the other is a failure. "
-                "Non-trivial = at least one frame was drawn by a tick; distinct by (geometry, animations, schedule prefix).",
+                "Host registry histories (one display, calls in any order; model Host/LCDReg.v): (B) every word of up to 5 calls (thorough 6) over {one-shot blink row 0 (over after 1 step), looping scroll row 0, one-shot scroll row 0, "
+                "[thorough: looping blink row 1,] tick} that ends with an animate call, followed by 7 ticks, on a 2x2 display (quick: all words up to 4 calls and the 5-call words in which the quick one-shot is over before a later animate); "
+                "(A) structured finished-then-reregistered histories: one-shot (4 styles, on the looping one's row or the other) + looping (4 styles) + ticks until the one-shot is over + a third animate whose (style, row) is that of the looping one / "
+                "of the finished one / another style / another row, looping or not, + ticks beyond the third's end and a full period of the looping one, speeds 0 and 3, early ticks mixed in (quick: all same-as-looping, half of the others; thorough also cols 8); "
+                "(C) seeded random histories of 4..45 calls: animate drawn from 1..3 recurring (style, row) pairs (short texts so that one-shots finish inside the history, 6 % unknown styles, 6 % rows outside the display), ticks with gaps from "
+                "{0,1,p-1,p,p+1,2p,5p+3} starting at 0/6/999/2^32-5, line / clear / begin() in between; a third of them again with the class's other public calls (write, message, progress, display, backlight, brightness, glyph) interleaved (oracle only). "
+                "Oracle over a history: every animation a valid animate call started is followed by the identity of its _AnimationState object; while live (active, no begin() since) it must stay in lcd.animations across every call, "
+                "no call but tick may change it, every due tick advances it (or at least draws on its row), looping never inactive, steps speed_ms apart, one-shots stop within len+2*cols+2 steps; a failing history is minimised call by call before it is reported. "
+                "Non-trivial = at least one frame was drawn by a tick; distinct by (geometry, animations, schedule prefix); histories: an animate call was made after an earlier animation had finished and a later tick drew a frame.",
         "samples": [hcases[0], hcases[len(hcases) // 2], dindex[0][0] if dindex else None],
         "distribution": stats,
-        "guard": "host: cols, rows >= 1, tick times positive and non-decreasing; device: additionally 0 <= row < rows, text without control characters, quotes or backslashes (non-ASCII text = its UTF-8 bytes; speed_ms may be negative: cast to unsigned long), "
+        "guard": "host: cols, rows >= 1, tick times positive and non-decreasing (histories: the same over the tick calls of the history; animations reset by begin() are no longer judged); device: additionally 0 <= row < rows, text without control characters, quotes or backslashes (non-ASCII text = its UTF-8 bytes; speed_ms may be negative: cast to unsigned long), "
                  "1 <= cols <= 40; the place of the lcd.animate call sites is not restricted any more (before the main loop, inside it, inside functions, at any block depth: the two findings that "
                  "excluded the main loop and defs are repaired, kind=fixed, and suppress nothing); a call site inside the main loop is generated under a run-once guard (an unguarded one restarts its animation in every pass - by design of animate); "
                  "sketches that are compiled use bare `except:` handlers only (a named exception class becomes catch (<Class> &), undeclared on any core: C06)",
@@ -1799,8 +2220,9 @@ def run(ctx: C.Ctx):
                        "across the roll-over of millis() the model is exact (C18_rollover_trace_device_partial) but the property's oracle is not evaluated there (register values are not non-decreasing: outside the quantifier); "
                        "a step taken in the millisecond in which millis() reads 0 is followed by an immediate step (C18_rollover_zero_reading_refuted: outside the quantifier, remark only)",
                        "device: DDRAM addressing beyond 40 columns / 4-row interleaving (shown unreachable by C18_frame_geometry_device)",
-                       "host: non-int now_ms / speed_ms, LCD.begin() during an animation"],
-        "trusted_base": C.COMMON_TRUSTED + ["harness/impl/c18_impl.py (real LCD object; buffer item assignments recorded by a list subclass; time.sleep replaced by a counter)",
+                       "host: non-int now_ms / speed_ms; what begin() does to running animations is modelled (registry cleared) and compared but not judged by the oracle (not the statement's subject); "
+                       "the registry key is modelled as the triple (style, row, count) its string is rendered from (rendered by the harness for the comparison with the real keys)"],
+        "trusted_base": C.COMMON_TRUSTED + ["harness/impl/c18_impl.py (real LCD object; buffer item assignments recorded by a list subclass; time.sleep replaced by a counter; histories: the state object a successful animate call added to lcd.animations is remembered by identity and looked up among lcd.animations.values() after every call)",
                                             "mock/LiquidCrystal.h + mock_core.cpp (cursor-addressed DDRAM, LW/LD events, scripted millis() incl. the clockbase offset that wraps modulo 2^64 like a real counter)", "g++ 12 -O0",
                                             "harness/fw.py, transpile_impl.py"],
     })
